@@ -398,7 +398,7 @@ namespace fixedmath
     [[ gnu::always_inline ]]
     constexpr bool checked_multiply( fixed_internal lh, integral_type rh, fixed_internal & result ) noexcept
       {
-#if defined(__GNUC__) || defined(__clang__)
+#if (defined(__GNUC__) || defined(__clang__)) && !defined(FIXEDMATH_VERIF_PORTABLE_MULTIPLY)
       //integral promotion keeps the value of every integral type
       return !__builtin_mul_overflow( lh, +rh, &result );
 #else
